@@ -1,7 +1,7 @@
 (* Run/TextRun.v -- verdicts for C01 / C02 / C13: the model's text vs the implementation's, and the
    oracles (lex, parse, shape, binding) run on the implementation's text. *)
 From Coq Require Import NArith ZArith List String Floats Bool.
-From SCAD Require Import Text.Chars Text.Tree Text.Emit Text.Lex Text.Parse Text.Dec64 Text.Bind Gen.Enums.
+From SCAD Require Import Text.Chars Text.Tree Text.Emit Text.Lex Text.Parse Text.Dec64 Text.Bind Gen.Enums Text.FileModel.
 Import ListNotations.
 Local Open Scope Z_scope.
 
@@ -79,22 +79,24 @@ Definition num_verdict (c : float * text) : Z :=
   end.
 
 (* C13: a saved file = assignments for the settings, then the trees *)
-Definition header_line (name : string) (lit : text) : text := s2t name ++ s2t "=" ++ lit ++ s2t ";" ++ [10%N].
-Definition file_model (settings : list (string * text)) (ts : list tree) : text :=
-  flat_map (fun kv => header_line (fst kv) (snd kv)) settings ++ model_text ts.
 Fixpoint check_file_tops (settings : list (string * fnum)) (ts : list tree) (tops : list top) : Z :=
   match settings, tops with
   | (k, v) :: settings', TAssign n e :: tops' =>
-      if text_eqb n (s2t k) && value_eqb (value_of e) (VNum (nval v)) then check_file_tops settings' ts tops' else 30
+      if text_eqb n (s2t ("$" ++ k)%string) && value_eqb (value_of e) (VNum (nval v)) then check_file_tops settings' ts tops' else 30
   | [], _ => check_tops ts tops
   | _, _ => 30
   end.
-Definition fcase := (list (string * fnum) * list tree * option text)%type.
-Definition file_verdict (c : fcase) : Z * Z :=
-  let '(settings, ts, content) := c in
-  let m := file_model (map (fun kv => (fst kv, nlit (snd kv))) settings) ts in
-  match content with
-  | None => (0, 2)
-  | Some it => (first_text_diff m it 0,
-                match parse_text it with None => 11 | Some tops => check_file_tops settings ts tops end)
+(* settings as (keyword, value); content = bytes read back from the file; fmt = what format!() gave on the calling thread *)
+Definition fcase := (list (string * fnum) * list tree * option text * text)%type.
+(* (first difference between model and file or -1, oracle code on the file, first difference between file and format!() text or -1) *)
+Definition file_verdict (c : fcase) : Z * Z * Z :=
+  let '(settings, ts, content, fmt) := c in
+  match file_content (map (fun kv => (fst kv, nlit (snd kv))) settings) (model_text ts), content with
+  | Some m, Some it =>
+      (first_text_diff m it 0,
+       match parse_text it with None => 11 | Some tops => check_file_tops settings ts tops end,
+       match file_content (map (fun kv => (fst kv, nlit (snd kv))) settings) fmt with
+       | Some m2 => first_text_diff m2 it 0 | None => 0 end)
+  | None, _ => (0, 31, 0)
+  | _, None => (0, 2, 0)
   end.
